@@ -12,6 +12,7 @@ package actions
 // balance as it was, also when it is the full balance: delete-at-zero then re-create), so the sum
 // of all balance records is unchanged.  A failing transfer is rolled back by the caller (C03).
 //@ func (*Transfer).Execute props C06
+//@   modifies gmap("vis", mu)[]
 //@   requires storage.wfrec(gmap("vis", mu), str(storage.BalanceKey(actor))) && storage.wfrec(gmap("vis", mu), str(storage.BalanceKey(t.To)))
 //@   let A = str(storage.BalanceKey(actor))
 //@   let B = str(storage.BalanceKey(t.To))
